@@ -111,12 +111,11 @@ func (c *c02Oracle) Check(w *World, o *Obs) []Violation {
 			out = append(out, viol("C02", "completed_with_bad_sms", st.Kind, o,
 				fmt.Sprintf("pending login of %s completed with a code the gateway never sent", uidPut), "why", "never_sent"))
 		case s.Acct != a:
-			// the code was sent to a number that, when it was sent, was not
-			// this account's registered one (the account may have enrolled
-			// another number since: a code sent to the number registered at
-			// the time is this account's code)
+			// the code was not sent for this account (it may have enrolled
+			// another number since its own code went out: that is still
+			// its code)
 			out = append(out, viol("C02", "completed_with_bad_sms", st.Kind, o,
-				fmt.Sprintf("pending login of %s (registered number now %q) completed with a code that was sent to %q, which was not its registered number then", uidPut, row.SMSPhone, s.Number), "why", "other_number"))
+				fmt.Sprintf("pending login of %s (registered number now %q) completed with a code that was sent to %q for another account", uidPut, row.SMSPhone, s.Number), "why", "other_number"))
 		case !usable(code.Status):
 			out = append(out, viol("C02", "completed_with_bad_sms", st.Kind, o,
 				fmt.Sprintf("pending login of %s completed with an SMS code that is %s", uidPut, code.Status), "why", code.Status))
